@@ -179,6 +179,7 @@ type Exec struct {
 	assertHit     map[int]bool
 	ghostUpdHit   map[int]bool
 	sortOrd       int // ordinal of sort.Slice calls (obligation names)
+	nthCache      map[string]token.Pos
 	skipHit       map[string]bool
 	loopHit       map[int]bool
 	cloHit        map[int]bool
@@ -206,7 +207,7 @@ func newExec(ld *Loader, cs *Contracts, pkg *packages.Package) *Exec {
 		declared: map[string]bool{}, reveal: map[string]bool{}, specUsesStr: map[string]bool{}, specUsesQuant: map[string]bool{},
 		loopOrd: map[ast.Node]int{}, cloOrd: map[*ast.FuncLit]int{}, boxed: map[types.Object]bool{},
 		heapComps: map[string]*Sort{}, structSorts: map[string]*Sort{}, typeTags: map[string]int{}, maxPaths: 20000, assumptions: map[string]bool{},
-		maxSteps: 400000, assertHit: map[int]bool{}, ghostUpdHit: map[int]bool{}, skipHit: map[string]bool{}, loopHit: map[int]bool{}, cloHit: map[int]bool{},
+		maxSteps: 400000, assertHit: map[int]bool{}, nthCache: map[string]token.Pos{}, ghostUpdHit: map[int]bool{}, skipHit: map[string]bool{}, loopHit: map[int]bool{}, cloHit: map[int]bool{},
 		freshSliceVars: map[*types.Var]bool{}, escaped: map[*ast.FuncLit]bool{}, uncontracted: map[string]bool{}, pureAxiomDone: map[string]bool{},
 		closureOfVar: map[*types.Var]*ast.FuncLit{}, allLits: map[*ast.FuncLit]bool{}, usedAxioms: map[string]bool{}, intrinsics: map[string]bool{}, cloVerified: map[*ast.FuncLit]bool{}, reassigned: map[types.Object]bool{}, freshPtrVars: map[*types.Var]bool{}, freshStructVars: map[*types.Var]bool{}, aliasMapVars: map[*types.Var]bool{},
 	}
